@@ -24,7 +24,10 @@ ASSUMPTIONS = ['io.BytesIO read/seek/tell semantics', 'dict insertion order, bis
                'the DIE / abbreviation / unit caches hold values of pure functions of (unit, offset): observed in one canonical '
                'order (iter_DIEs to the end, then children / parent / reference queries); order independence is C10',
                'tag / attribute / form NAMES are the regenerated enum tables (registry correctness is C17)',
-               'no supplementary DWARF file (supplementary_dwarfinfo is None)']
+               'no supplementary DWARF file (supplementary_dwarfinfo is None)',
+               'get_top_DIE returns _dielist[0]: a DIE fetched BELOW cu_die_offset (sibling / type_offset pointing into the unit '
+               'header; never in a well-formed unit) takes the top DIE\'s slot and later answers depend on the cache history — '
+               'the model marks such a fetch (low_fetch) and the case is set aside (C10), like state after a failed get_top_DIE']
 
 OFFS = lambda fmt: fmt // 8
 
@@ -370,6 +373,7 @@ def patch(rng, layout, units, tus):
     for (uoff, offs), u in zip(layout['info'], units):
         info_entries += [(uoff, o) for o in offs]
     sigs = [u['id8'] for u in tus]
+    sigs5 = sorted(v5_type_sigs(units))          # DWARF 5: type units live in .debug_info
     for sec, lst in (('info', units), ('types', tus)):
         for (uoff, offs), u in zip(layout[sec], lst):
             order = preorder(u['tree'], [])
@@ -401,8 +405,52 @@ def patch(rng, layout, units, tus):
                             tgt = rnd_uint(rng, 16)
                         set_ref(a, tgt, fmt, asz, ver)
                     elif f == 0x20:
-                        if sigs and rng.random() < 0.85:
+                        if sigs5 and rng.random() < 0.3:
+                            a['op'][1] = rng.choice(sigs5)
+                        elif sigs and rng.random() < 0.85:
                             a['op'][1] = rng.choice(sigs)
+
+
+# ------------------------------------------------------------------------- known finding: sig8 -> v5 type unit
+REF_CODES = (0x11, 0x12, 0x13, 0x14, 0x15, 0x10, 0x20)     # the final forms get_DIE_from_attribute is asked about
+
+
+def v5_type_sigs(units):
+    """signatures of the DWARF 5 type units (DW_UT_type = 2, DW_UT_split_type = 6) placed in .debug_info"""
+    return {u['id8'] for u in units if u['version'] == 5 and u.get('utype') in (2, 6)}
+
+
+def sig8_v5_slots(case):
+    """{(section, unit index): [bool per reference slot]} — True where the slot is a DW_FORM_ref_sig8 attribute whose
+    signature belongs to a DWARF 5 type unit of .debug_info.  Slots are in the order the references are queried and
+    expected: entries in pre-order, attributes in declaration order, reference forms only.  Decided on the generated
+    case alone (never on what the library answered)."""
+    sigs5 = v5_type_sigs(case.get('units', []))
+    res = {}
+    for sec, key in (('info', 'units'), ('types', 'tus')):
+        for k, u in enumerate(case.get(key, [])):
+            slots = []
+
+            def walk(t):
+                for a in t['attrs']:
+                    if a['form'] in REF_CODES:
+                        slots.append(a['form'] == 0x20 and a['op'][0] == 'nat' and a['op'][1] in sigs5)
+                for c in t['kids']:
+                    walk(c)
+            walk(u['tree'])
+            res[(sec, k)] = slots
+    return res
+
+
+def is_sig8_v5(v):
+    """FINDINGS predicate for 'sig8-v5-type-unit': the violation is about exactly one reference slot and the generated
+    case says that slot is a ref_sig8 attribute designating a v5 type unit in .debug_info"""
+    at = v.get('sig8_v5_slot')
+    if v.get('kind') != 'property' or not at:
+        return False
+    sec, k, j = at
+    slots = sig8_v5_slots(v['case']).get((sec, k), [])
+    return j < len(slots) and slots[j] is True
 
 
 # ----------------------------------------------------------------------------------------------- the real library
@@ -518,8 +566,17 @@ def diverged(x):
                for sec in ('info', 'types') for u in x[sec]['units'])
 
 
-def cmp_expect(impl, expect):
-    """first difference between what the code yields and what the property prescribes, or None"""
+def cmp_expect(impl, expect, skip=None, only=None):
+    """first difference between what the code yields and what the property prescribes, or None.
+    `skip` / `only`: {(section, unit): [bool per reference slot]} — reference slots to leave out / to look at alone."""
+    def wanted(sec, k, j):
+        if skip is not None:
+            sl = skip.get((sec, k), [])
+            return not (j < len(sl) and sl[j])
+        if only is not None:
+            sl = only.get((sec, k), [])
+            return j < len(sl) and sl[j]
+        return True
     for sec in ('info', 'types'):
         iu, eu = impl[sec]['units'], expect[sec]['units']
         if impl[sec]['end'] is not None or len(iu) != len(eu):
@@ -533,11 +590,28 @@ def cmp_expect(impl, expect):
                                 return (sec, k, 'die', x, y)
                     return (sec, k, key, a.get(key), b.get(key))
             for j, (x, y) in enumerate(zip(a.get('refs', []), b.get('refs', []))):
-                if y is not None and x != y:
+                if y is not None and x != y and wanted(sec, k, j):
                     return (sec, k, 'ref', j, x, y)
             if len(a.get('refs', [])) != len(b.get('refs', [])):
                 return (sec, k, 'refs-len', len(a.get('refs', [])), len(b.get('refs', [])))
     return None
+
+
+def judge(rq, impl, expect):
+    """(first difference outside the known-finding class, first difference inside it as (diff, [sec, unit, slot]))"""
+    slots = sig8_v5_slots(rq)
+    for (sec, k), sl in slots.items():          # the slot order must be the expectation's; otherwise classify nothing
+        eu = expect[sec]['units']
+        if k >= len(eu) or len(eu[k].get('refs', [])) != len(sl):
+            slots = {}
+            break
+    d = cmp_expect(impl, expect, skip=slots)
+    if d is not None:
+        return d, None
+    d = cmp_expect(impl, expect, only=slots) if slots else None
+    if d is not None:
+        return None, (d, [d[0], d[1], d[3]])
+    return None, None
 
 
 def check_case(ctx, stream, rq, r):
@@ -548,10 +622,16 @@ def check_case(ctx, stream, rq, r):
     out.case(rq)
     if r['wf']:
         out.count(stream + ':wf')
-        d = cmp_expect(impl, r['expect'])
+        for sl in sig8_v5_slots(rq).values():
+            out.count(stream + ':ref-sig8-to-v5-type-unit', sum(sl))
+        d, known = judge(rq, impl, r['expect'])
         if d is not None:
             out.violation('property', stream, rq, diff=d, expect=None, got=None)
             return
+        if known is not None:
+            # a reference the property covers and the library does not resolve: judged, reported, and recognised by
+            # FINDINGS['sig8-v5-type-unit'] from the generated case (the slot named here is re-derived there)
+            out.violation('property', stream, rq, diff=known[0], sig8_v5_slot=known[1], expect=None, got=None)
     else:
         out.count(stream + ':not-wf')
         if not r['wf_tables']:
@@ -568,9 +648,15 @@ def check_case(ctx, stream, rq, r):
         return
     r['model'] = dict(r['model'])
     model = dict(r['model'])
+    low = model.pop('low_fetch', False)
     if model.pop('top_hook_fails'):
         # get_top_DIE raised after caching a half-translated top entry: later calls on that unit depend on the history
         out.count(stream + ':state-after-failure(C10)')
+        return
+    if low:
+        # a DIE below cu_die_offset was fetched and took the top DIE's cache slot (get_top_DIE returns _dielist[0]):
+        # what the unit answers afterwards depends on the cache history
+        out.count(stream + ':low-fetch-replaces-top(C10)')
         return
     if any_failed(impl) or any_failed(model):
         out.count(stream + ':reduced-compare')
@@ -698,8 +784,12 @@ def run_raw(ctx):
                 ctx.out.count('raw:diverged')
                 continue
             model = dict(m['model'])
+            low = model.pop('low_fetch', False)
             if model.pop('top_hook_fails'):
                 ctx.out.count('raw:state-after-failure(C10)')
+                continue
+            if low:
+                ctx.out.count('raw:low-fetch-replaces-top(C10)')
                 continue
             if any_failed(impl) or any_failed(model):
                 ctx.out.count('raw:reduced-compare')
@@ -725,9 +815,13 @@ def replay(ctx, payload):
         info, abbrev = bytes.fromhex(r['info']), bytes.fromhex(r['abbrev'])
         types = bytes.fromhex(r['types']) if (case.get('tus') or case.get('types_present')) else None
         impl = impl_world(case['le'], case['dasz'], info, abbrev, types, case['secs'])
-        d = cmp_expect(impl, r['expect']) if r['wf'] else None
+        d = None
+        if r['wf']:
+            d, known = judge(case, impl, r['expect'])
+            d = d if d is not None else (known[0] if known is not None else None)
         model = dict(r['model'])
-        hook = model.pop('top_hook_fails')
+        hook = model.pop('top_hook_fails') or model.pop('low_fetch', False)
+        model.pop('low_fetch', None)
         if any_failed(impl) or any_failed(model):
             impl, model = reduced(impl), reduced(model)
         if hook:
@@ -738,7 +832,8 @@ def replay(ctx, payload):
         impl = impl_world(case['le'], case['dasz'], bytes.fromhex(case['info']), bytes.fromhex(case['abbrev']),
                           bytes.fromhex(case['types']) if 'types' in case else None, case['secs'])
         model = dict(r['model'])
-        hook = model.pop('top_hook_fails')
+        hook = model.pop('top_hook_fails') or model.pop('low_fetch', False)
+        model.pop('low_fetch', None)
         if any_failed(impl) or any_failed(model):
             impl, model = reduced(impl), reduced(model)
         if hook:
@@ -748,3 +843,7 @@ def replay(ctx, payload):
 
 
 FINDINGS = {}
+# DW_FORM_ref_sig8 designating a DWARF 5 type unit (DW_UT_type / DW_UT_split_type in .debug_info): get_DIE_by_sig8 scans
+# only .debug_types and raises KeyError.  Matched on the input class, slot by slot; any other reference problem
+# (v4 .debug_types lookups included) is compared first and reported as a violation.
+FINDINGS['sig8-v5-type-unit'] = lambda v: is_sig8_v5(v)
